@@ -263,6 +263,15 @@ func runC01(r *rep.Report, thorough bool) error {
 	o.Risky = true
 	cases = append(cases, genCases(rng, n/2, "k", o)...)
 	cases = append(cases, synth.HandWritten()...)
+	if only := os.Getenv("VH_ONLY_CASE"); only != "" { // debugging aid
+		var sel []*synth.Case
+		for _, c := range cases {
+			if c.ID == only {
+				sel = append(sel, c)
+			}
+		}
+		cases = sel
+	}
 	l, err := load.Cases(cases)
 	if err != nil {
 		return err
